@@ -74,6 +74,14 @@ NATIVE = {
               'family': '.hash and .gnu.hash sections BUILT per the gABI / GNU format by an independent builder for 0-8 symbols (duplicates, non-UTF-8 names), 1-8 buckets, 1-4 bloom words, shifts 0-31, both classes and byte orders, optionally one corrupted byte; every present name must be found, every absent name give None, every answer be sound'},
     'c05n': {'enum': 'stream_oracle::enumerate', 'check': 'slice_oracle::check_c05_file(&c.file[..c.cut.min(c.file.len())])', 'n': _n('VERIF_STREAM_CASES', '150000'),
              'family': 'the ELF64/LE files of the stream oracle: header tables against an independent decode of e_shoff/e_shnum/e_phoff/e_phnum with the extended-numbering rules; open fails iff an entry size is wrong or a table does not fit'},
+    'c04n': {'enum': 'byte_families::fam_c04', 'check': 'byte_families::run_c04(c)', 'n': 400000, 'family': 'buffers <= 12 bytes, offsets inside/at/past the end and near usize::MAX, six readers x four byte-order specifications'},
+    'c15n': {'enum': 'byte_families::fam_c15', 'check': 'byte_families::run_c15(c)', 'n': 400000, 'family': 'string tables <= 10 bytes over {NUL, ASCII, invalid UTF-8}: get_raw and get'},
+    'c09n': {'enum': 'byte_families::fam_c09', 'check': 'byte_families::run_c09(c)', 'n': 300000, 'family': 'lazy tables over <= 40 bytes (u32 entries and Rel/ELF32 entries), indexes inside/at/past len and huge'},
+    'c10n': {'enum': 'byte_families::fam_c10', 'check': 'byte_families::run_c10(c)', 'n': 300000, 'family': 'valid idents with 0-3 bytes replaced'},
+    'c14n': {'enum': 'byte_families::fam_c14', 'check': 'byte_families::run_c14(c)', 'n': 300000, 'family': '1-3 note records (GNU / other names, types 1/3/5, sizes on and off the alignment), alignments 0,1,2,3,4,8,16, truncation, corrupted size words'},
+    'c03n': {'enum': 'byte_families::fam_c03', 'check': 'byte_families::run_c03(c)', 'n': 50000, 'family': 'section / segment ranges around the boundaries of a 60-byte file and around u64 overflow'},
+    'c13i': {'enum': 'byte_families::fam_c13i', 'check': 'byte_families::run_c13i(c)', 'n': 300000, 'family': 'structured version sections iterated from several offsets and counts (three records each)'},
+    'c02n': {'enum': 'byte_families::fam_c02', 'check': 'run_c02(c)', 'n': 600000, 'family': 'every ABI structure decoded from buffers <= 80 bytes at offsets 0..8 and past the end, both classes and byte orders, against the layout table'},
     'c13n': {'enum': 'slice_oracle::enumerate_symver', 'check': 'slice_oracle::check_symver(c)', 'n': _n('VERIF_SYMVER_CASES', '300000'),
              'family': 'version sections from kani/replay_src/slice_oracle.rs::enumerate_symver: 1-4 versym entries, 0-3 verneed records with one auxiliary record each, 0-3 verdef records, forward/zero/out-of-range links, hidden bits, unreadable strings; get_requirement/get_definition against a reference resolution'},
 }
@@ -142,6 +150,11 @@ def layout_oracle():
         out.append('    Ok(())\n}')
     return '\n'.join(out) + '\n'
 
+def c02_dispatch():
+    names = sorted(h[4:] for h in struct_harnesses())
+    arms = ''.join('        %d => check_c02_%s(&c.buf, c.a as usize, c.f1, c.f2),\n' % (i, n) for i, n in enumerate(names))
+    return ('#[cfg(not(kani))] pub fn run_c02(c: &byte_families::BytesCase) -> Result<(), String> {\n    match (c.sel as usize) %% %d {\n%s        _ => Ok(()),\n    }\n}\n' % (len(names), arms))
+
 def gen_harness_rs(hs):
     out = ['#[cfg(kani)]\nmod search {\n    use super::*;']
     for name, h in hs.items():
@@ -166,8 +179,8 @@ def setup(tmp):
     checks = '\n'.join(l for l in checks.splitlines() if not l.startswith('//!')) + '\n'
     checks = checks.replace('include!("layout_oracle.rs");', layout_oracle())
     # route the hand-written Err(format!(..)) through the cheap path under Kani as well
-    open(os.path.join(tmp, 'src', 'lib.rs'), 'w').write(LIB_HEAD + checks + gen_harness_rs(hs) + '\n#[cfg(not(kani))] pub mod stream_oracle;\n#[cfg(not(kani))] pub mod slice_oracle;\n')
-    for f_ in ('stream_oracle.rs', 'slice_oracle.rs'): shutil.copy(os.path.join(ROOT, 'kani', 'replay_src', f_), os.path.join(tmp, 'src', f_))
+    open(os.path.join(tmp, 'src', 'lib.rs'), 'w').write(LIB_HEAD + checks + gen_harness_rs(hs) + '\n#[cfg(not(kani))] pub mod stream_oracle;\n#[cfg(not(kani))] pub mod slice_oracle;\n#[cfg(not(kani))] pub mod byte_families;\n' + c02_dispatch())
+    for f_ in ('stream_oracle.rs', 'slice_oracle.rs', 'byte_families.rs'): shutil.copy(os.path.join(ROOT, 'kani', 'replay_src', f_), os.path.join(tmp, 'src', f_))
     open(os.path.join(tmp, 'Cargo.toml'), 'w').write('[package]\nname = "elf-verif-replay"\nversion = "0.1.0"\nedition = "2021"\n\n[dependencies]\nelf = { path = "%s" }\n\n[lints.rust]\nunexpected_cfgs = { level = "allow", check-cfg = [\'cfg(kani)\'] }\n\n[workspace]\n' % os.path.join(tmp, 'elf'))
     return hs
 
@@ -248,7 +261,7 @@ fn main() {
         open(os.path.join(tmp, 'src', 'bin', 'replay.rs'), 'w').write(main)
         r = subprocess.run(['cargo', 'run', '--offline', '-q', '--release', '--bin', 'replay'], cwd=tmp, env=env, capture_output=True, text=True, timeout=600)
         panicked = r.returncode not in (0, 1) and 'panicked at' in r.stderr
-        extra_src = ''.join('\n// ---- src/%s\n' % f + open(os.path.join(tmp, 'src', f)).read() for f in ('stream_oracle.rs', 'slice_oracle.rs'))
+        extra_src = ''.join('\n// ---- src/%s\n' % f + open(os.path.join(tmp, 'src', f)).read() for f in ('stream_oracle.rs', 'slice_oracle.rs', 'byte_families.rs'))
         return {'status': 'replayed-fails' if ((r.returncode == 1 and 'REPLAY FAILS' in r.stdout) or panicked) else 'replay-does-not-fail', 'bound': bound, 'wall_s': wall,
                 'inputs': case, 'replay_main': main, 'replay_output': (r.stdout[-1500:] + r.stderr[-500:]) if not panicked else ('REPLAY PANICS on the real crate: ' + r.stderr[-700:]),
                 'kani_cmd': 'cargo run --release --bin native_search   (native enumeration)', 'lib_rs': open(os.path.join(tmp, 'src', 'lib.rs')).read() + extra_src}
